@@ -38,26 +38,27 @@ pub fn gen_swarm(rng: &mut Rng, profile: Profile) -> Swarm {
         Profile::Fees => *rng.pick(&[0u128, 1, 7, 1000, 10000, 33333, 99999, 100000, 100001, 250000]),
         _ => *rng.pick(&[0u128, 1000, 10000, 10000, 50000, 100000]),
     };
+    let many = profile == Profile::ManyBatches;
     Swarm {
         profile,
         proto_prefix,
         native_prefix,
         channel: *rng.pick(&[0u64, 1, 42, 1234, 4_000_000_000]),
-        batch_period: *rng.pick(&[60u64, 3600, 86_400, 7 * 86_400]),
+        batch_period: if many { 60 } else { *rng.pick(&[60u64, 3600, 86_400, 7 * 86_400]) },
         unbonding: *rng.pick(&[120u64, 86_400, 21 * 86_400, 90 * 86_400]),
         min_stake: *rng.pick(&[0u128, 1, 100, 1_000_000]),
         fee_rate,
         treasury: rng.chance(1, 2),
         oracle: rng.chance(85, 100),
         monitors: rng.range(0, 3) as u8,
-        users: rng.range(1, 6) as u8,
+        users: if many { 1 } else { rng.range(1, 6) as u8 },
         scale,
         init_n,
         init_l,
         honest: rng.chance(1, 2),
         faults: rng.chance(7, 10),
         skew: rng.range(0, 60) as i64 - 30,
-        n_ops: rng.range(20, 150) as u32,
+        n_ops: if many { 260 } else { rng.range(20, 150) as u32 },
         start_s: 1_700_000_000 + rng.below(100_000_000),
         base_tx_index: rng.below(50) as u32,
         zero_ibc_ok: rng.chance(3, 10),
@@ -202,6 +203,7 @@ fn weights(p: Profile) -> W {
         Profile::Lifecycle => W { unstake: 14, submit: 16, deadline: 20, deliver: 14, config: 5, advance: 8, ..base },
         Profile::Halt => W { halt: 8, resume: 6, intruder: 6, submit: 8, deliver: 8, withdraw: 10, rewards: 8, ..base },
         Profile::Upgrade => W { migrate: 4, recover: 8, timeout: 6, fault: 6, rewards: 8, ..base },
+        Profile::ManyBatches => W { stake: 3, unstake: 40, submit: 30, deadline: 30, deliver: 4, withdraw: 2, relay: 2, timeout: 0, recover: 0, rewards: 0, config: 0, halt: 0, resume: 0, feew: 0, owner: 0, intruder: 0, fault: 0, stray: 0, query: 14, slash: 0, advance: 0, hostile: 0, migrate: 0, forced: 0, validators: 0 },
     }
 }
 
@@ -366,6 +368,7 @@ pub fn next_op(e: &Engine, rng: &mut Rng) -> Op {
             };
             Op::Stake { user: rng.below(8) as u8, amount: amount(rng, e), rcpt, flag, expect, via }
         }
+        1 if e.sw.profile == Profile::ManyBatches => Op::UnstakePct { user: *rng.pick(&holders), pct: 1 },
         1 => {
             let u = *rng.pick(&holders);
             if rng.chance(1, 3) {
@@ -499,6 +502,7 @@ pub fn next_op(e: &Engine, rng: &mut Rng) -> Op {
             7 => FaultOp::OracleRejects,
             8 => FaultOp::TokenFactoryRejects,
             9 => FaultOp::AbortAtStorageAccess(rng.below(40) as u16),
+            10 => FaultOp::ReplyData(rng.below(2) as u8),
             _ => FaultOp::BackgroundTraffic(rng.range(1, 100) as u16),
         }),
         17 => Op::Stray(match rng.below(6) {
@@ -568,7 +572,13 @@ pub fn next_op(e: &Engine, rng: &mut Rng) -> Op {
                 3 => vec![1, 1],
                 4 => vec![0, 1, 2],
                 5 => vec![2, 0, 1, 0],
-                6 => vec![0, 1000 + rng.below(5)],
+                6 => {
+                    if rng.chance(1, 2) {
+                        vec![]
+                    } else {
+                        vec![0, 1000 + rng.below(5)]
+                    }
+                }
                 _ => (0..rng.range(1, 4)).map(|_| rng.below(4)).collect(),
             };
             Op::Admin(AdminOp::ForcedRecover { ids, receiver, honest })
